@@ -75,12 +75,12 @@ var lenBytes = map[byte]int{TIntN: 1, TUintN: 1, TFltN: 1, TMoneyN: 1, TDateN: 1
 
 type buf struct{ b []byte }
 
-func (w *buf) u8(v byte)     { w.b = append(w.b, v) }
-func (w *buf) u16(v uint16)  { w.b = binary.LittleEndian.AppendUint16(w.b, v) }
-func (w *buf) u32(v uint32)  { w.b = binary.LittleEndian.AppendUint32(w.b, v) }
-func (w *buf) u64(v uint64)  { w.b = binary.LittleEndian.AppendUint64(w.b, v) }
+func (w *buf) u8(v byte)      { w.b = append(w.b, v) }
+func (w *buf) u16(v uint16)   { w.b = binary.LittleEndian.AppendUint16(w.b, v) }
+func (w *buf) u32(v uint32)   { w.b = binary.LittleEndian.AppendUint32(w.b, v) }
+func (w *buf) u64(v uint64)   { w.b = binary.LittleEndian.AppendUint64(w.b, v) }
 func (w *buf) bytes(v []byte) { w.b = append(w.b, v...) }
-func (w *buf) str8(s string) { w.u8(byte(len(s))); w.b = append(w.b, s...) }
+func (w *buf) str8(s string)  { w.u8(byte(len(s))); w.b = append(w.b, s...) }
 
 // Done encodes DONE / DONEPROC / DONEINPROC.
 func Done(tok byte, status, tran uint16, count int32) []byte {
